@@ -75,6 +75,11 @@ def make_world():
     nodes += K.trashed('/h/.local/share/Trash', 'new', '/h/w/new', '2020-06-15T11:00:00', 'file', 2020)
     nodes += K.trashed('/v/.Trash/1000', 'mid', 'w/mid', '2020-06-10T00:00:00', 'link-dir', 2040)
     nodes += K.trashed('/v/.Trash-1000', 'anc', 'w/anc', '1999-01-01T00:00:00', 'file', 2060)
+    # payloads that are symbolic links whose target does not resolve from inside files/ (a trashed relative link,
+    # an orphan link): they exist (lexists) although exists() says no
+    nodes += K.trashed('/h/.local/share/Trash', 'dang', '/h/w/dang', '2020-05-01T00:00:00', 'dangling', 2100)
+    nodes += [W.l('/v/.Trash-1000/files/orphanlink', 'nowhere', 2203), W.l('/x/custom/files/rel', '../w/gone.txt', 2204),
+              W.f('/x/custom/info/rel.trashinfo', K.info_text('/x/w/rel', '2020-06-01T00:00:00'), 0o600, 2205)]
     nodes += K.trashed('/x/custom', 'cus', '/x/w/cus', '2020-06-14T11:59:59', 'file', 2080)
     nodes += [W.f('/v/.Trash-1000/files/orphan', 'ORPHAN', 0o644, 2200), W.d('/v/.Trash-1000/files/orphandir'),
               W.f('/v/.Trash-1000/files/orphandir/in', 'IN', 0o644, 2201),
